@@ -278,6 +278,8 @@ def rule_r10(chk, rid="C08-R10"):
 def run(chk):
     from . import c03 as _c03
     chk.guard(_c03.rule_r14, chk, rid="C08-R11")
+    from . import c01 as _c01b
+    chk.guard(_c01b.rule_r11, chk, rid="C08-R12")
     chk.guard(rule_r10, chk)
     chk.guard(rule_r1, chk)
     chk.guard(rule_r2, chk)
